@@ -258,7 +258,7 @@ def run(cfg, c):
             Ts = mc.NONFINITE[nf] if nf_here else mc.T(c, xs)
             uj = unis[j]['value']
             uj = uj if np.ndim(uj) == 0 else np.asarray(uj).ravel()[0]
-            logu = mc.log_u(c, uj)
+            logu = mc.log_u(c, uj, link=True)
             a = bool(acc[j] == 1)
             if nf_here:
                 c.prove('non-finite proposal never accepted (component %d)' % j, not a, info=fk(cfg, 'nonfinite-u0' if mc.is_nonfinite(logu) else 'nonfinite'))
@@ -273,7 +273,7 @@ def run(cfg, c):
     u = unis[-1]['value'] if unis else None
     if u is not None and np.ndim(u) > 0:
         u = np.asarray(u).ravel()[0]
-    logu = mc.log_u(c, u) if u is not None else None
+    logu = mc.log_u(c, u, link=True) if u is not None else None
     accb = bool(np.asarray(acc).ravel()[0] == 1)
 
     if alg == 'MH':
